@@ -151,7 +151,14 @@ def judgePrep (input obs : Json) : Except String Verdict := do
     if !methodOK then "prep:method" else if !pathOK then "prep:path" else if !queryOK then "prep:query"
     else if !hostSpec then "prep:host" else if !bodyOK then "prep:body"
     else if !attsOK then (if atts.any (fun p => !p.1) then "prep:retry:body-differs-on-a-later-attempt" else "prep:retry:request-differs-on-a-later-attempt")
-    else match hv with | some (kind, k) => s!"prep:{kind}:{k}" | none => ""
+    else match hv with
+      | some (kind, k) => s!"prep:{kind}:{k}"
+      | none =>
+        -- the gate the checks above refine (`run_meets_backendSeenOK`); "server is IP-addressed" from the declarative
+        -- reading of the authority where it has one, else from what checkAddrPattern computed
+        let serverIsIP := match specHostPart uhost.toList with | some hp => isIP hp | none => !isHostName
+        if Spec.reqSideOK canon (optStr input "method") wantURI h [] serverIsIP keepHost clientHost uhost
+            (optStr obs "outMethod") outURI outHost gotHdr then "" else "prep:target"
   let escaped := escPath != decPath
   pure { agree := agree, spec := sig == "", sig := sig,
          expected := Json.mkObj [("uri", wantURI), ("host", wantHost), ("hdrs", hdrJson wantHdr)],
@@ -288,7 +295,12 @@ def judgeOne (sc : Scenario) (obs : Json) (o : Oracle) (b : Built) (res : Result
             let bodyOK := match sc.reqAd with
               | none => bs.bodySum == (wireSym sc.body o.req).sum
               | some a => bs.decErr == "" && bs.decSum == (if a.body != "" then o.reqAd.sum else o.req.sum)
-            if bodyOK then "" else "req:body"
+            if !bodyOK then "req:body"
+            else
+              -- the gate every detailed check above refines (`run_meets_backendSeenOK`: the model passes it)
+              let wantURI := (if l.escapedPath == "" then "/" else l.escapedPath) ++ (if o.rawQuery == "" then "" else "?" ++ o.rawQuery)
+              if Spec.reqSideOK o.canon l.method wantURI expHdr skip (sc.serverKind == "ip") sc.keepHost l.host o.serverHP
+                  bs.method bs.uri bs.host bs.hdr then "" else "req:target"
   let reqSig : String := match res with
     | .proxied _ _ _ =>
       if allSeen.isEmpty then "req:not-forwarded" ++ (if c.status == 500 then ":500" else "")
@@ -320,7 +332,12 @@ def judgeOne (sc : Scenario) (obs : Json) (o : Oracle) (b : Built) (res : Result
             let want := match sc.respAd with
               | some a => if a.body != "" then o.respAd.sum else o.back.sum
               | none => o.back.sum
-            if c.decErr != "" || c.decSum != want then "resp:content" ++ featureSuffix sc else ""
+            if c.decErr != "" || c.decSum != want then "resp:content" ++ featureSuffix sc
+            else
+              -- the gate (`run_meets_clientSeenOK`: the model passes it): status, end-to-end headers, framing on the header as written
+              let expH := (match b.cfg.respAd with | some a => adaptHeader a | none => id)
+                (if bodylessStatus sc.bStatus then b.backendHdr.filter (·.1 != "Content-Type") else b.backendHdr)
+              if Spec.clientSeenOK sc.bStatus expH c.status c.hdr c.bodyLen then "" else "resp:declared-length" ++ featureSuffix sc
     else ""
   let sig := if reqSig != "" then reqSig else respSig
   let toks := connTokens o.canon b.clientHdr
@@ -422,10 +439,13 @@ the two *observations* only. -/
 def hitViolation (first cur : SeenResp) : String :=
   if cur.err != "" then "unreadable:" ++ cur.err
   else if !cur.frameOK then "framing:" ++ cur.frameErr
-  else if cur.status != first.status then s!"status:{cur.status}"
-  else match (hdrKeysNoDate first.hdr ++ hdrKeysNoDate cur.hdr).find? (fun k => first.hdr.get k != cur.hdr.get k) with
-    | some k => "header:" ++ k
-    | none => if cur.bodySum != first.bodySum || cur.decErr != "" then "content" else ""
+  else if !Spec.hitSameAsMiss (hdrKeysNoDate first.hdr ++ hdrKeysNoDate cur.hdr) first.status first.hdr cur.status cur.hdr then
+    -- (`hist_meets_cacheOK`: the model's hits pass `hitSameAsMiss`); which part differs:
+    if cur.status != first.status then s!"status:{cur.status}"
+    else match (hdrKeysNoDate first.hdr ++ hdrKeysNoDate cur.hdr).find? (fun k => first.hdr.get k != cur.hdr.get k) with
+      | some k => "header:" ++ k
+      | none => "header:?"
+  else if cur.bodySum != first.bodySum || cur.decErr != "" then "content" else ""
 
 def judgeHist : Judge := liftJudge fun input obs => do
   match obsPanic obs with
@@ -540,7 +560,9 @@ def judgeConc : Judge := liftJudge fun input obs => do
     | some r =>
       let st := (optInt spec "status" 200).toNat
       let st := if st < 200 || st > 599 || st == 204 || st == 304 then 200 else st
+      let own := r.decErr == "" && r.decSum == optStr blob "sum" && r.decLen == (optInt blob "len").toNat
       if r.err != "" then s!"conc:{phase}:unreadable"
+      else if Spec.isolationOK st r.status (r.hdr.get keyCE) own && r.frameOK && r.hdr.get "X-Body" != [] then ""   -- `conc_meets_isolationOK`
       else if r.status != st then s!"conc:{phase}:status:{r.status}"
       else if !r.frameOK then s!"conc:{phase}:framing:{r.frameErr}"
       else if (r.hdr.get keyCE) != ["gzip"] then s!"conc:{phase}:not-labelled-gzip"
